@@ -18,6 +18,8 @@ type File struct {
 	// ID is a unique object id assigned at creation (a rename keeps it;
 	// re-creation after unlink gives a new id).
 	ID int
+	// pendingSync: file lengths at the entry of fsync calls that have not completed yet
+	pendingSync []int
 }
 
 // FS is the in-memory model of the root directory.
@@ -99,8 +101,22 @@ func (fs *FS) Apply(e Event) error {
 				f.Synced = off
 			}
 		}
+	case FsyncStart:
+		f.pendingSync = append(f.pendingSync, len(f.Data))
 	case Fsync:
-		f.Synced = len(f.Data)
+		if n := len(f.pendingSync); n > 0 {
+			// the oldest fsync in flight: durable is what had been written when it was called
+			covered := f.pendingSync[0]
+			f.pendingSync = f.pendingSync[1:]
+			if covered > len(f.Data) {
+				covered = len(f.Data)
+			}
+			if covered > f.Synced {
+				f.Synced = covered
+			}
+		} else {
+			f.Synced = len(f.Data)
+		}
 	case Truncate:
 		if e.Size < 0 {
 			return fmt.Errorf("fstrace: event %d (%s): negative size", e.Seq, e)
@@ -137,7 +153,7 @@ func (fs *FS) Apply(e Event) error {
 func (fs *FS) Clone() *FS {
 	c := &FS{Files: make(map[string]*File, len(fs.Files)), nextID: fs.nextID}
 	for name, f := range fs.Files {
-		nf := &File{Synced: f.Synced, ID: f.ID}
+		nf := &File{Synced: f.Synced, ID: f.ID, pendingSync: append([]int(nil), f.pendingSync...)}
 		if f.Data != nil {
 			nf.Data = append(make([]byte, 0, len(f.Data)), f.Data...)
 		}
